@@ -1,4 +1,4 @@
-import FiberModel.C17.FullInv
+import FiberModel.C17.OnceInv
 import FiberModel.C17.Known
 /-
 C17 — property theorems (only). All of them quantify over every lifetime, every KeepResponseHeaders
@@ -73,10 +73,33 @@ theorem at_most_one_success_partial (life : Nat) (reqs : Tid → Req) (t0 : Nat)
   rcases hcase with hc | hc | hc
   · -- t1 is about to record: it holds the key's lock, and so does t2
     exact absurd (holders_eq hf.lock (by simp [hc, holds]) hh2 hk1 hk2) hne
-  · obtain ⟨r, exp, hst, hle⟩ := hf.exec.kept t1 k hc hk1
-    have := hf.exec.exec t2 k hex hk2 r exp hst
+  · have := recorded_blocks hf.exec hex hk2 hk1 hc
+    have := (hf.exec.setAt t1 hc).1
     omega
   · simp [Known.K1, hc] at hK
+
+/-- **recorded_success_blocks_execution.** (no K1 restriction) Under every schedule: while a request
+executes the handler (or has completed it and not yet recorded) for key k, every execution of key k
+whose response was recorded was recorded at least a lifetime ago — the lifetime counted from the second
+of the successful `Storage.Set`. -/
+theorem recorded_success_blocks_execution (life : Nat) (reqs : Tid → Req) (t0 : Nat) (keep : Option (List String))
+    {g : G} (h : (sys life).Reach (init reqs t0 keep) g) (t1 t2 : Tid) (k : Key)
+    (hex : execRegion (g.threads t2).pc = true) (hk2 : (g.threads t2).req.key = some k)
+    (hk1 : (g.threads t1).req.key = some k) (hs : (g.threads t1).stored = true) :
+    (g.threads t1).doneAt ≤ (g.threads t1).setAt ∧ (g.threads t1).setAt + life ≤ g.now := by
+  have hf := full_reach life reqs t0 keep h
+  exact ⟨(hf.exec.setAt t1 hs).1, recorded_blocks hf.exec hex hk2 hk1 hs⟩
+
+/-- **recorded_successes_a_lifetime_apart.** (no K1 restriction) Under every schedule: of two different
+requests of the same key whose handlers completed successfully and whose responses were both recorded,
+one completed at least a lifetime after the other was *recorded*. Together with K1 (= a successful
+execution that was never recorded) this is the whole at-most-once clause. -/
+theorem recorded_successes_a_lifetime_apart (life : Nat) (reqs : Tid → Req) (t0 : Nat) (keep : Option (List String))
+    {g : G} (h : (sys life).Reach (init reqs t0 keep) g) (t1 t2 : Tid) (k : Key) (hne : t1 ≠ t2)
+    (hk1 : (g.threads t1).req.key = some k) (hk2 : (g.threads t2).req.key = some k)
+    (hs1 : (g.threads t1).stored = true) (hs2 : (g.threads t2).stored = true) :
+    (g.threads t1).setAt + life ≤ (g.threads t2).doneAt ∨ (g.threads t2).setAt + life ≤ (g.threads t1).doneAt :=
+  (oinv_reach life reqs t0 keep h).apart t1 t2 k hne hk1 hk2 hs1 hs2
 
 /-- K1 witness: thread 0 executes, its Set fails, thread 1 executes in the same second. -/
 theorem at_most_one_success_witness_K1 :
@@ -99,6 +122,12 @@ example : Known.K1 exA 0 = false ∧ execRegion (exA.threads 1).pc = true ∧ (e
 Full statement (FALSE on the unchanged tree for the same reason, K1): the same without the two
 `Known.K1 … = false` hypotheses.
 -/
+/-- non-vacuity of `recorded_successes_a_lifetime_apart`: both requests recorded, a lifetime apart -/
+def exA2 : G := (sys 5).run exA (List.replicate 6 (Act.thr 1))
+
+example : (exA2.threads 0).stored = true ∧ (exA2.threads 1).stored = true ∧ (exA2.threads 0).setAt = 100 ∧
+    (exA2.threads 1).doneAt = 105 ∧ (exA2.threads 1).pc = .done := by decide
+
 /-- **successes_a_lifetime_apart_partial.** Under every schedule: two different requests of the same key
 whose handlers both completed successfully, and neither of whose responses was lost by a failing
 `Storage.Set` (K1), completed at least a lifetime apart. -/
@@ -344,6 +373,36 @@ theorem others_unaffected (life : Nat) (reqs : Tid → Req) (t0 : Nat) (keep : O
       rw [h2] at pa
       have := hf.lock.inj ka kb _ pa pb
       rw [hka, hkb, this]
+
+/-- **no_deadlock.** Under every schedule: whenever an unfinished request cannot move, the request that
+holds its key's lock either can move itself or is one whose `Unlock` failed (leaked lock) — requests
+never wait for each other in a cycle, so without `Unlock` faults every request is eventually answered
+under any fair schedule. -/
+theorem no_deadlock (life : Nat) (reqs : Tid → Req) (t0 : Nat) (keep : Option (List String)) {g : G}
+    (h : (sys life).Reach (init reqs t0 keep) g) (t : Tid) (hnone : stepThr life g t = none)
+    (hnd : (g.threads t).pc ≠ .done) (hnl : (g.threads t).pc ≠ .leaked) :
+    ∃ t', (g.locks (g.threads t).lk).holder = some t' ∧ t' ≠ t ∧
+      ((g.threads t').pc = .leaked ∨ (stepThr life g t').isSome = true) := by
+  have hf := full_reach life reqs t0 keep h
+  obtain ⟨hpc, _, t', hh, _⟩ := (others_unaffected life reqs t0 keep h).2.2.2 t hnone hnd hnl
+  obtain ⟨h1, _⟩ := (hf.lock.holder _ t').1 hh
+  refine ⟨t', hh, ?_, ?_⟩
+  · intro e; subst e; simp [hpc, holds] at h1
+  · by_cases hl : (g.threads t').pc = .leaked
+    · exact .inl hl
+    · right
+      cases hs : stepThr life g t' with
+      | some _ => rfl
+      | none =>
+        have hd : (g.threads t').pc ≠ .done := by intro e; simp [e, holds] at h1
+        have := stepThr_none_pc hf.keyed hs hd hl
+        simp [this, holds] at h1
+
+/-- non-vacuity of `no_deadlock`: request 1 waits for request 0, which is in the handler and can move -/
+def exN : G := (sys 5).run (init (fun _ => exReq) 100) (List.replicate 6 (Act.thr 0) ++ List.replicate 4 (Act.thr 1))
+
+example : (exN.threads 1).pc = .lockAcq ∧ (stepThr 5 exN 1).isNone = true ∧ (exN.threads 0).pc = .atHandler ∧
+    (exN.locks (exN.threads 1).lk).holder = some 0 ∧ (stepThr 5 exN 0).isSome = true := by decide
 
 /-- non-vacuity (blocking, Unlock fault): request 0 executes and records, its `Unlock` fails; after the
 lifetime request 1 (same key) misses the record, and waits in `lock.mu.Lock()` for the leaked lock -/
